@@ -221,6 +221,7 @@ structure Tx where
   payer : Option String
   fee : List (Str × Nat)
   gas : Nat
+  granter : Option String := none   -- fee granter: an unsigned field of the transaction
 
 def dedupS : List Acct → List Acct → List Acct
   | [], acc => acc.reverse
@@ -243,6 +244,13 @@ def feePayer (tx : Tx) : Option Acct :=
   | none => match tx.msgs.head? with
     | some m => m.signer
     | none => none
+
+/-- a fee granter other than the fee payer needs a fee allowance; no history grants one, so such a transaction is refused wherever
+fees are deducted (the settlement route and the generic route) - and is of no consequence where they are not (oracle transactions) -/
+def granterOk (tx : Tx) : Bool :=
+  match tx.granter with
+  | none => true
+  | some g => (decodeAcc g).isSome && decodeAcc g == feePayer tx
 
 /-- `ValidateFeeder`: the validator exists and is bonded; the feeder is its operator or the delegate stored under that spelling -/
 def validateFeeder (s : State) (feeder : Acct) (validator : String) : Bool :=
@@ -290,7 +298,7 @@ def addPoolDenom (ds : List Str) (d : Str) (amt : Nat) : List Str :=
 /-- fee deduction of the settlus chain for a settlement transaction: the state after the two module transfers and what was
 charged; none when the transaction is refused (zero gas limit, no covered denomination, payer unknown or short) -/
 def feeStep (a : AState) (tx : Tx) : Option (AState × (Str × Nat)) :=
-  if tx.gas == 0 then none
+  if tx.gas == 0 || !granterOk tx then none
   else match requiredFee a.prices tx.fee (fixedGas tx.msgs), feePayer tx with
     | some (d, f), some p =>
       match a.s.bank.send (.acct p) .collector d (collectorPart a.s.st.params.oracleFee f) with
@@ -328,7 +336,7 @@ def deliverSettlus (H : Str → Str) (a : AState) (tx : Tx) : TxRes :=
     | some (a1, ch) => if sigsOk tx then finishSettlus H a1 (some ch) false tx else rejected a .settlus
 
 def deliverGeneric (H : Str → Str) (a : AState) (tx : Tx) : TxRes :=
-  if rejectTopLevel a.s.h tx.msgs || !limiterOk false 1 tx.msgs || !sigsOk tx then rejected a .generic
+  if rejectTopLevel a.s.h tx.msgs || !limiterOk false 1 tx.msgs || !sigsOk tx || !granterOk tx then rejected a .generic
   else match runMsgs H a tx.msgs with
     | none => { a := a, ok := false, anteOk := true }
     | some a2 => { a := a2, ok := true, anteOk := true }
